@@ -107,7 +107,8 @@ pub struct ShapeSpec {
 }
 
 pub fn draw_shape<R: RecUni>(rng: &mut Rng, tier: Tier, force_kind: Option<&str>) -> ShapeSpec {
-    let fri = if rng.chance(1, 4) { FriShape::testing() } else { FriShape::swarm(rng) };
+    let mut fri = if rng.chance(1, 4) { FriShape::testing() } else { FriShape::swarm(rng) };
+    fri.log_blowup = fri.log_blowup.max(R::MIN_LOG_BLOWUP);
     let kind = force_kind.map(|s| s.to_string()).unwrap_or_else(|| if rng.chance(1, 2) { "uni".into() } else { "batch".into() });
     let mut log_n = rng.range(0, tier.pick(5, 7));
     if log_n < fri.log_final_poly_len + 1 {
@@ -181,6 +182,10 @@ pub fn run_shape<R: RecUni>(
             return;
         }
         if honest_native.is_err() {
+            out.count(&format!("honest_rejected_by_both_{}_{}", R::NAME, honest_native.clone().err().unwrap_or_default().split(|c: char| !c.is_alphanumeric()).filter(|x| !x.is_empty()).take(4).collect::<Vec<_>>().join("_")));
+            if std::env::var("VERIF_DUMP_SKIPPED").is_ok() {
+                eprintln!("SKIPPED idx={idx} {}", serde_json::to_string(spec).unwrap_or_default());
+            }
             out.count("honest_rejected_by_both_shape_skipped");
             return;
         }
@@ -317,6 +322,10 @@ pub fn run_shape<R: RecUni>(
             return;
         }
         if honest_native.is_err() {
+            out.count(&format!("honest_rejected_by_both_{}_{}", R::NAME, honest_native.clone().err().unwrap_or_default().split(|c: char| !c.is_alphanumeric()).filter(|x| !x.is_empty()).take(4).collect::<Vec<_>>().join("_")));
+            if std::env::var("VERIF_DUMP_SKIPPED").is_ok() {
+                eprintln!("SKIPPED idx={idx} {}", serde_json::to_string(spec).unwrap_or_default());
+            }
             out.count("honest_rejected_by_both_shape_skipped");
             return;
         }
@@ -411,16 +420,12 @@ pub fn run_shape<R: RecUni>(
 pub fn one_run(ctx: &Ctx, idx: u64, out: &mut RunOut) {
     let mut rng = Rng::new(ctx.seed, "C01", idx);
     foldhash::sim::set_seed(mix(ctx.seed, idx));
-    let kb = idx % 2 == 0;
-    let spec = if kb { draw_shape::<crate::rec::kb4::U>(&mut rng, ctx.tier, None) } else { draw_shape::<crate::rec::bb4::U>(&mut rng, ctx.tier, None) };
+    let uni = crate::rec::universe_of(idx);
+    let spec = crate::with_rec_universe!(uni, U, draw_shape::<U>(&mut rng, ctx.tier, None));
     if out.samples.is_empty() {
         out.samples.push(json!({"idx": idx, "shape": {"universe": spec.universe, "kind": spec.kind, "fri": spec.fri, "log_n": spec.log_n, "lanes": [spec.public_lanes, spec.alu_lanes], "program_calls": spec.program.as_ref().map(|p| p.calls.len())}}));
     }
-    if kb {
-        run_shape::<crate::rec::kb4::U>(ctx.seed, idx, &spec, ctx.tier, None, out);
-    } else {
-        run_shape::<crate::rec::bb4::U>(ctx.seed, idx, &spec, ctx.tier, None, out);
-    }
+    crate::with_rec_universe!(uni, U, run_shape::<U>(ctx.seed, idx, &spec, ctx.tier, None, out));
 }
 
 pub fn replay(ctx: &Ctx, body: &Value) -> i32 {
@@ -440,11 +445,7 @@ pub fn replay(ctx: &Ctx, body: &Value) -> i32 {
     foldhash::sim::set_seed(mix(seed, idx));
     let mut out = RunOut::default();
     let only = if mode == "honest" { None } else { Some((mode.as_str(), leaf.as_str(), fault)) };
-    if spec.universe == "U-BB4" {
-        run_shape::<crate::rec::bb4::U>(seed, idx, &spec, Tier::Thorough, only, &mut out);
-    } else {
-        run_shape::<crate::rec::kb4::U>(seed, idx, &spec, Tier::Thorough, only, &mut out);
-    }
+    crate::with_rec_universe!(spec.universe.as_str(), U, run_shape::<U>(seed, idx, &spec, Tier::Thorough, only, &mut out));
     let key = body["key"].as_str().unwrap_or("");
     for v in &out.violations {
         if v.key == key {
@@ -467,6 +468,23 @@ pub fn main(ctx: &Ctx) -> i32 {
             }
         };
         return replay(ctx, &body);
+    }
+    if let Some(path) = ctx.args.get("shape") {
+        // diagnostic: run one shape given as a JSON file and print what happened
+        let spec: ShapeSpec = match std::fs::read_to_string(path).ok().and_then(|s| serde_json::from_str(&s).ok()) {
+            Some(s) => s,
+            None => {
+                eprintln!("harness error: cannot read shape file");
+                return 2;
+            }
+        };
+        let mut out = RunOut::default();
+        crate::with_rec_universe!(spec.universe.as_str(), U, run_shape::<U>(ctx.seed, 0, &spec, ctx.tier, None, &mut out));
+        println!("counters: {:?}", out.counters);
+        for v in &out.violations {
+            println!("violation: {} :: {}", v.key, v.clause.chars().take(300).collect::<String>());
+        }
+        return 0;
     }
     let runs: u64 = ctx.tier.pick(32, 320);
     let res = crate::core::pool::run_jobs(runs, |idx| {
